@@ -136,6 +136,13 @@ class SequentialPlan(plans.plan.Plan):
         all_required: Dict[FNode, List["plans.plan.ActionInstance"]] = {}
         # graph stores the information gathered through the process
         graph = nx.DiGraph()
+        # the fluents of a state invariant are implicitly read by every action instance that writes one of them,
+        # because the invariant is checked in the state produced by that action instance
+        invariant_fluents: List[Set[FNode]] = []
+        for invariant in getattr(problem, "state_invariants", []):
+            invariant_fluents.append(
+                set(fve.get(simp.simplify(eqr.remove_quantifiers(invariant, problem))))
+            )
         for action_instance in self.actions:
             graph.add_node(action_instance)
             assert isinstance(action_instance.action, InstantaneousAction)
@@ -178,6 +185,15 @@ class SequentialPlan(plans.plan.Plan):
                 required_fluents.add(
                     simp.simplify(subs.substitute(lifted_fluent, assignments))
                 )
+
+            for effect in inst_action.effects:
+                for eff in effect.expand_effect(problem):
+                    written_fluent = simp.simplify(
+                        subs.substitute(eff.fluent, assignments)
+                    )
+                    for fluents in invariant_fluents:
+                        if written_fluent in fluents:
+                            required_fluents |= fluents
 
             # for every required fluent, add this action instance to the list of action instances that requires this fluent
             # and order the current action instance after the last modifier of the fluent
